@@ -47,6 +47,7 @@ class Site:
 
     def has(self, matcher, val=True):
         """a fact 'atom matching `matcher` last evaluated to `val`' holds on all paths to here"""
+        self.flow.need_names(matcher)
         tr = self.flow.trees
         for f in self.facts:
             if f[0] == "A" and f[2] == val and matcher(tr[f[1]]):
@@ -56,6 +57,7 @@ class Site:
     def had(self, matcher, val=True):
         """on every path the most recent evaluation of an atom matching `matcher` gave `val` (even if its operands were
         modified since: use for status results of calls such as tok.skip(), parse(), lock())"""
+        self.flow.need_names(matcher)
         tr = self.flow.trees
         for f in self.facts:
             if f[0] == "H" and f[2] == val and matcher(tr[f[1]]):
@@ -131,12 +133,46 @@ def truth(av):
     return None
 
 
+def names_in(fn):
+    """every bare declaration name (local, parameter, global, enumerator) the function's facts mention"""
+    c = getattr(fn, "_names", None)
+    if c is None:
+        c = set(p.get("d") for p in fn.params)
+        for b in fn.blocks.values():
+            for ev in b["ev"]:
+                if ev.get("e") == "decl":
+                    c.add(ev.get("d"))
+                for k in ("x", "lhs", "rhs", "init"):
+                    if ev.get(k) is not None:
+                        c |= {n.get("d") if n.get("k") == "ref" else n.get("f") for n in E.walk(ev[k]) if n.get("k") in ("ref", "call", "ctor")}
+            t = b.get("term")
+            if t and t.get("c") is not None:
+                c |= {n.get("d") if n.get("k") == "ref" else n.get("f") for n in E.walk(t["c"]) if n.get("k") in ("ref", "call", "ctor")}
+        fn._names = c
+    return c
+
+
 class Flow:
+    def need_names(self, matcher):
+        """a matcher tied to a bare name that the function no longer mentions anywhere can never match: the rule instance lost its
+        anchor (e.g. a local was renamed) -> analysis broken (exit 2), not a verdict"""
+        refs = getattr(matcher, "refs", None)
+        if refs:
+            missing = [r for r in refs if r not in names_in(self.fn)]
+            if missing:
+                from .units import AnalysisBroken
+                raise AnalysisBroken("rule instance refers to %s in %s, which that function no longer mentions (renamed local? re-confirm the instance)"
+                                     % (", ".join("'%s'" % m for m in sorted(missing)), self.fn.name))
+
     def __init__(self, fn, tracked=(), assume=(), switch_assume=None, markers=None, classify=None,
                  noret=NORET, on_event=None, on_edge=None, init_env=None, start=None, max_nodes=200000,
                  track_atoms=None, track_markers=(), track_history=False):
         self.fn = fn
         self.tracked = set(tracked)
+        for nm in self.tracked:
+            if nm not in names_in(fn):
+                from .units import AnalysisBroken
+                raise AnalysisBroken("tracked local '%s' is not mentioned in %s any more (renamed? re-confirm the rule instance)" % (nm, fn.name))
         self.assume = list(assume)
         self.switch_assume = switch_assume
         self.markers = markers or {}
